@@ -97,8 +97,21 @@ pub fn run_case(case: &Case) -> (Vec<(String, String)>, CaseInfo) {
             if !snapshot_diff(&before, &after).is_empty() {
                 // that the state moved at all is C04's subject; whether the state the node is left in
                 // still describes one chain is this check's
-                for (suffix, what) in check_consistency(&d.node, &table, max_id) {
-                    let key = if orphan_seen && orphan_rel == 0 { "C03|orphan_path".to_string() } else { format!("C03|{}|ctx=after_rejected_delivery", suffix) };
+                let found = check_consistency(&d.node, &table, max_id);
+                // open finding F42 (second mechanism): purging runs while a multi-block candidate is
+                // still being wound; when a later candidate block fails, the roll-back cannot bring
+                // back what the earlier ones purged. Those are exactly the heights the candidate
+                // would have purged had it succeeded: at most b.id - 1 - 2*gp.
+                let purge_floor = b.id.saturating_sub(1 + 2 * case.hist.ncfg.gp);
+                let only_premature_purge = !found.is_empty() && purge_floor > 0 && crate::observe::check_consistency_above(&d.node, &table, max_id, purge_floor).is_empty();
+                for (suffix, what) in found {
+                    let key = if orphan_seen && orphan_rel == 0 {
+                        "C03|orphan_path".to_string()
+                    } else if only_premature_purge {
+                        "C03|purged_by_failed_reorganisation".to_string()
+                    } else {
+                        format!("C03|{}|ctx=after_rejected_delivery", suffix)
+                    };
                     viols.push((key, format!("after the rejected delivery of block idx {} id {}: {}", idx, b.id, what)));
                 }
                 info.dead = Some("rejected_block_left_trace".into());
